@@ -135,6 +135,60 @@ class Stn:
     def input(self, name, length):
         return SArr(length, [(0, length, self.rel(name, 0))])
 
+    # -- reductions over the cell index
+    def _indexed(self, aid, memo):
+        if aid in memo:
+            return memo[aid]
+        A = self.alg
+        at = A.atoms[aid]
+        memo[aid] = False
+        r = False
+        if at.kind == "sym":
+            r = bool(REL.match(at.name))
+        elif at.kind in ("base", "defined"):
+            r = any(self._indexed(a, memo) for a in A.atoms_of(at.defn))
+        elif at.kind == "ind":
+            r = any(self._indexed(a, memo) for m in at.cond for a, e in m)
+        elif at.kind == "opaque" and at.name.startswith("Sum("):
+            r = False          # the index is bound by the sum
+        elif at.kind == "opaque":
+            from .algebra import RF
+            r = any(self._indexed(a, memo) for x in at.args if isinstance(x, RF) for a in A.atoms_of(x))
+        memo[aid] = r
+        return r
+
+    def summation(self, arr, count=None):
+        """sum over all entries of a piecewise array as a ring element: linear, index-free factors
+        are taken out, each remaining indexed monomial m becomes the atom Sum(m); an index-free
+        term needs the number of entries `count` (ring element)"""
+        from .algebra import RF
+        A = self.alg
+        if not isinstance(arr, SArr):
+            raise AnalysisError("sum of a non-array value")
+        if len(arr.segs) != 1 or arr.segs[0][0] != NLin(0, 0) or arr.segs[0][1] != arr.length:
+            raise AnalysisError("sum over a piecewise array (%d segments)" % len(arr.segs))
+        v = A.lift(arr.segs[0][2])
+        memo = {}
+        for fid, mult in v.den:
+            for m in A.factors[fid]:
+                if any(self._indexed(a, memo) for a, e in m):
+                    return A.opaque("Sum", [v])
+        groups = {}
+        for m, c in v.num.items():
+            free = tuple((a, e) for a, e in m if not self._indexed(a, memo))
+            idx = tuple((a, e) for a, e in m if self._indexed(a, memo))
+            groups[idx] = A.add(groups[idx], RF(A, {free: c})) if idx in groups else RF(A, {free: c})
+        total = A.const(0)
+        for idx, fr in groups.items():
+            if not idx:
+                if count is None:
+                    raise AnalysisError("sum of an index-free term needs the number of entries")
+                total = A.add(total, A.mul(fr, A.lift(count)))
+            else:
+                total = A.add(total, A.mul(fr, A.opaque("Sum", [RF(A, {idx: Fraction(1)})])))
+        den = RF(A, {(): Fraction(1)}, v.den)
+        return A.mul(total, den)
+
     # -- substitution of index
     def _map_atoms(self, val, fn):
         A = self.alg
